@@ -126,6 +126,8 @@ type batchRec struct {
 	endSeq int64
 	size   int
 	units  int
+	// unexplained: size-bound signature suffix when the batch is too large for a reason other than the listed one
+	unexplained string
 	// itemless: the batch carries at least one container without items
 	itemless bool
 }
@@ -165,6 +167,7 @@ func runBInner(s *BScript) (nontrivial bool, f *vt.Finding) {
 			}
 		}
 		rec.units = sig.UnitCount(v)
+		rec.unexplained = unexplainedOvershoot(s.Signal, s.Sizer, v, s.Max)
 		// a resource / scope / metric entry without any item: what is left of a request whose items were all
 		// extracted into earlier batches travels on as such an entry
 		rec.itemless = len(sig.StandaloneSizes(v)) > rec.units
@@ -239,7 +242,7 @@ func runBInner(s *BScript) (nontrivial bool, f *vt.Finding) {
 	for bi, b := range batches {
 		out = append(out, b.items...)
 		if s.Max > 0 && b.size > s.Max && b.units > 1 {
-			if f := vt.Failf("size-bound/"+s.Sizer+"/"+s.Signal, "batch %d has size %d %s > max %d and holds %d units", bi, b.size, s.Sizer, s.Max, b.units); !cB.Soft(f, s) {
+			if f := vt.Failf("size-bound/"+s.Sizer+"/"+s.Signal+b.unexplained, "batch %d has size %d %s > max %d and holds %d units", bi, b.size, s.Sizer, s.Max, b.units); !cB.Soft(f, s) {
 				return true, f
 			}
 		}
